@@ -6,11 +6,14 @@ base = json.load(open(os.path.join(V, "lib", "manifest_base.json")))
 props = [json.loads(l)["id"] for l in open(os.path.join(V, "properties.jsonl")) if l.strip()]
 checks = []
 claimed = set()
+enabled = set(l.strip() for l in open(os.path.join(V, "lib", "enabled.txt")) if l.strip() and not l.startswith("#"))
 for f in sorted(glob.glob(os.path.join(V, "checks", "C*.json"))):
     c = json.load(open(f))
     if c.get("disabled"):
         continue
     pid = c["property_id"]
+    if pid not in enabled:
+        continue
     claimed.add(pid)
     checks.append({
         "property_id": pid,
